@@ -1532,3 +1532,44 @@ Proof.
   split; [exact idH_inj|]. split; [exact nv_hist_ok|]. split; [split; reflexivity|].
   vm_compute. auto.
 Qed.
+
+(* --- the former witness of finding C01-F3 (a no-cache dependency whose two outputs exchange their contents)
+   now changes the dependant's key.  n: no-cache, no command (its outputs ox, oy are maintained outside the
+   build), d depends on n.  Build with ox = "A", oy = "B"; swap the two contents; build: n's output hash
+   differs, d's key differs, d is re-executed (not served) and its output is not the one of the first build.
+   GetNoCacheOutputHash used to hash the sorted content digests only ([digests_only_hash_blind]: that hash is
+   the same for the two states), so d's key did not change and d was served the stale bytes. *)
+Definition sw_n : tdef :=
+  mkTD (mkLabel (lit "p") (lit "n")) [] [] [] [mkOut OFile (lit "ox"); mkOut OFile (lit "oy")]
+       [] [] true false BNormal false.
+Definition sw_d : tdef :=
+  mkTD (mkLabel (lit "p") (lit "d")) (lit "c") [] [] [mkOut OFile (lit "od")]
+       [0] [] false false BNormal false.
+Definition sw_s : sources := mkSrc [NTarget sw_n; NTarget sw_d] [].
+Definition sw_ops : list op :=
+  [OpSources sw_s; OpPerturb (lit "p/ox") (PFile (lit "A")); OpPerturb (lit "p/oy") (PFile (lit "B"));
+   OpBuild c_all [1];
+   OpPerturb (lit "p/ox") (PFile (lit "B")); OpPerturb (lit "p/oy") (PFile (lit "A"));
+   OpBuild c_all [1]].
+Definition sw_state (k : nat) : bstate :=
+  let y := run_history idH (firstn k sw_ops) in
+  build_prefix idH c_all (sy_src y) [1] (sy_world y) (sy_cache y) 2.
+
+Lemma digests_only_hash_blind (H : str -> str) (a b : str) :
+  H (join comma (sort_strs [a; b])) = H (join comma (sort_strs [b; a])).
+Proof. f_equal. f_equal. apply sort_strs_canonical. apply perm_swap. Qed.
+
+Theorem nocache_swap_changes_key :
+  map br_status (sy_log (run_history idH sw_ops)) = [[TExecuted; TExecuted]; [TExecuted; TExecuted]] /\
+  rt_ohash (get_rt (sw_state 3) 0) <> rt_ohash (get_rt (sw_state 6) 0) /\
+  rt_key (get_rt (sw_state 3) 1) <> rt_key (get_rt (sw_state 6) 1) /\
+  rt_key (get_rt (sw_state 3) 1) <> None /\
+  ws_get (lit "p/od") (w_ws (sy_world (run_history idH sw_ops))) <>
+  ws_get (lit "p/od") (w_ws (sy_world (run_history idH (firstn 4 sw_ops)))).
+Proof.
+  split; [vm_compute; reflexivity|].
+  split; [vm_compute; intro E; discriminate E|].
+  split; [vm_compute; intro E; discriminate E|].
+  split; [vm_compute; intro E; discriminate E|].
+  vm_compute. intro E. discriminate E.
+Qed.
